@@ -1,5 +1,5 @@
 """C11 — no safe operation yields an invalid hash object (the structural clauses; widest check)."""
-from ..rules import rle, validate, tail, fields, eqord, vis, panic, parser, typestate, witness, normal, convert, casts, summary
+from ..rules import rle, validate, tail, fields, eqord, vis, panic, parser, typestate, witness, normal, convert, casts, summary, beliefs
 
 EXPL = ("Decides: SA-VIS: the representation of all hash/target/generator types is private, no exported safe function hands out &mut "
         "into it, accumulating initialisers/views/encoders/_internal functions are not exported, exported *_unchecked are unsafe - so "
@@ -22,6 +22,7 @@ def run(ctx):
         if c in ("dbg",):
             # beliefs are evaluated (visible) only with debug assertions on
             ctx.guard("C11", "validate", lambda: validate.constructors(ctx, prog))
+            ctx.guard("C11", "beliefs", lambda: beliefs.census(ctx, prog, beliefs.SCOPES["C11"][0], floor=beliefs.SCOPES["C11"][1]))
             continue
         ctx.guard("C11", "vis", lambda: vis.representation_private(ctx, prog))
         ctx.guard("C11", "validator", lambda: normal.validator_content(ctx, prog))
@@ -34,6 +35,7 @@ def run(ctx):
         ctx.guard("C11", "sym", lambda: eqord.len_index_symmetry(ctx, prog))
         ctx.guard("C11", "typestate", lambda: typestate.clear_before_accumulate(ctx, prog))
         ctx.guard("C11", "lenmask", lambda: typestate.length_follows_masks(ctx, prog))
+        ctx.guard("C11", "validcontent", lambda: typestate.valid_content(ctx, prog))
         ctx.guard("C11", "total-valid", lambda: panic.totality_of_validity(ctx, prog))
         ctx.guard("C11", "total-parse", lambda: parser.totality(ctx, prog))
         ctx.guard("C11", "fresh", lambda: parser.symbol_store(ctx, prog))
